@@ -40,7 +40,7 @@ MANIFEST = {
             'locator calls tag-free must render to themselves (HTML and '
             'String).  All templates with <= 2 (quick) / <= 3 (thorough) '
             'tags, depth <= 2, over seven tag kinds, with every text slot '
-            'drawn from a 10-fragment near-tag alphabet (at most 2 slots '
+            'drawn from a 14-fragment near-tag / near-line-end alphabet (at most 2 slots '
             'deviating at once), printed in dtml/SSI/EPFS syntax with and '
             'without a newline after block tags, rendered with four '
             'namespaces, must equal the reference rendering (text verbatim, '
@@ -69,7 +69,8 @@ FREE_TOK = {
     'String': ['%', '%(', ')', ')s', ')[', ')]', '%%', '(', 'x)', '<', '<dtml-',
                '>', '&dtml-', ';', '"', '\n', ' ', 'x', '[', ']', 's', '!'],
 }
-FRAGS = ['<', '<d', '<!--', '&dt', '%', '"', "'", '\n', ' \n', 'ab']
+FRAGS = ['<', '<d', '<!--', '&dt', '%', '"', "'", '\n', ' \n', 'ab',
+         '\t \n', '\r\n', '\xa0\n', '\x0c\n']
 NAMESPACES = [
     {'x': ['lit', 1], 'seq': ['seq', 'list', [['lit', 7], ['lit', 8]]]},
     {'x': ['lit', 0], 'seq': ['seq', 'list', [['lit', 7], ['lit', 8]]]},
@@ -227,18 +228,20 @@ def cases(tier):
         toks = FREE_TOK[cls]
         for a in range(len(toks)):
             yield {'fam': 'free', 'cls': cls, 'first': a, 'n': n}
+    # (max tags, max deviating slots, split points up to this many
+    #  deviating slots)
     if tier == 'quick':
-        plan = [(1, 2), (2, 1)]          # (max tags, max deviating slots)
+        plan = [(1, 2, 1), (2, 1, 0)]
     else:
-        plan = [(2, 2), (3, 1)]
-    for maxtags, dev in plan:
+        plan = [(2, 2, 1), (3, 1, 1)]
+    for maxtags, dev, splitdev in plan:
         for si, (shape, nslots) in enumerate(shapes(maxtags, 2)):
-            if (maxtags, dev) == plan[1] and \
+            if (maxtags, dev, splitdev) == plan[1] and \
                     ast.count_tags(shape) <= plan[0][0]:
                 continue                  # already covered more deeply
             for slot0 in range(-1, nslots):
                 yield {'fam': 'tagged', 'shape': si, 'maxtags': maxtags,
-                       'dev': dev, 'slot0': slot0}
+                       'dev': dev, 'slot0': slot0, 'splitdev': splitdev}
 
 
 _shape_cache = {}
@@ -404,7 +407,7 @@ def run_tagged(res, case):
         nodes = instantiate(shape, texts)
         sub = {'fam': 'one-tagged', 'nodes': nodes}
         k = check_template(res, nodes, sub,
-                           do_split=len(combo) <= 1)
+                           do_split=len(combo) <= case.get('splitdev', 1))
         n += k
         if combo:
             nt += k
